@@ -56,6 +56,7 @@ def main():
             shutil.rmtree(wd, ignore_errors=True)
         else:
             sh("git -C /repo worktree remove --force %s" % wd)
+            sh("rm -rf /scratch/kani-target-*")
     n_ok = sum(1 for r in res if r[1] == "CAUGHT")
     print("mutation self-test: %d/%d caught" % (n_ok, len(res)))
     return 0 if n_ok == len(res) else 1
